@@ -238,6 +238,14 @@ def run(tier, seed):
         ms = [m for t in trees for m in F.matchers_of(t)]
         gv, gm, ri, rm = F.impl_oracle(binary, [m[3] for m in ms if m[1] == 2], [m[3] for m in ms if m[1] == 3], inputs)
         tabs = dict(gv=gv, ri=ri, glob=gm, regex=rm, inputs=inputs)
+        # the glob matcher's own answers against the documented glob semantics (subset where it is
+        # unambiguous): the engine tables are otherwise taken from the implementation as an oracle
+        gbad, gn = F.glob_semantics_disagreements(gv, gm)
+        chk.count("glob_semantics_pairs", gn)
+        for b in gbad[:2]:
+            bad("counterexample", "oracle:glob-semantics", dict(
+                input=b, clause="a #glob matcher (or the implicit glob of package/deps/rdeps/binary/binary_id) "
+                                "matches exactly the strings its pattern denotes (*, ?, [set], {a,b})"))
         qj = [[world["ids"][q["pkg"]], q["binary_id"], q["binary_name"], q["kind"], q["platform"], q["test"]]
               for q in queries]
         impl = F.run_filterset(binary, [dict(op="eval", s=c["text"], default=c["default"][0] if c.get("default") else None,
